@@ -177,7 +177,55 @@ def _plain(tree):
   return '\n'.join(out)
 
 
+def _plain_norm(tree):
+  """CIFAR100_PIXELS_MEAN / _INVERSE_STDDEV and the normalisation expression of preprocess_image, over Q
+  (decimal literals are taken exactly as written)."""
+  from fractions import Fraction
+  T = _T()
+
+  def arr_lits(e, what):
+    ok = isinstance(e, ast.Call) and D(e.func) == 'np.array' and isinstance(e.args[0], ast.List) and \
+        all(isinstance(x, ast.Constant) and isinstance(x.value, float) for x in e.args[0].elts)
+    kw = {k.arg: D(k.value) for k in e.keywords} if ok else {}
+    if not ok or kw != {'dtype': 'np.float32'} or len(e.args[0].elts) != 3:
+      _unsupported(what + ': not np.array([a, b, c], dtype=np.float32)')
+    out = []
+    for x in e.args[0].elts:
+      fr = Fraction(ast.get_source_segment(SRC_TEXT[0], x) or repr(x.value))
+      out.append(f'({fr.numerator} # {fr.denominator})')
+    return out
+  mean = _first_assign(tree.body, 'CIFAR100_PIXELS_MEAN').value
+  inv = _first_assign(tree.body, 'CIFAR100_PIXELS_INVERSE_STDDEV').value
+  if not (isinstance(inv, ast.BinOp) and isinstance(inv.op, ast.Div) and isinstance(inv.left, ast.Constant) and inv.left.value == 1):
+    _unsupported('CIFAR100_PIXELS_INVERSE_STDDEV is not 1 / np.array([...])')
+  out = ['From Coq Require Import QArith.',
+         f'Definition plain_mean : list Q := [{"; ".join(arr_lits(mean, "CIFAR100_PIXELS_MEAN"))}].',
+         f'Definition plain_std : list Q := [{"; ".join(arr_lits(inv.right, "CIFAR100_PIXELS_INVERSE_STDDEV"))}].']
+  fd = T.find_def(tree, 'preprocess_image')
+  last = [s for s in _body(fd) if isinstance(s, ast.Assign) and D(s.targets[0]) == 'image' and not isinstance(s, ast.If)]
+  if not last or not isinstance(_body(fd)[-1], ast.Return) or D(_body(fd)[-1].value) != 'image' or _body(fd)[-2] is not last[-1]:
+    _unsupported('preprocess_image: does not end with image = <normalisation>; return image')
+
+  def q(e):
+    if isinstance(e, ast.BinOp) and type(e.op) in (ast.Sub, ast.Mult, ast.Div):
+      return f'({q(e.left)} {"-" if isinstance(e.op, ast.Sub) else "*" if isinstance(e.op, ast.Mult) else "/"} {q(e.right)})'
+    if isinstance(e, ast.Constant) and isinstance(e.value, int) and not isinstance(e.value, bool):
+      return f'({e.value} # 1)'
+    if ast.unparse(e) == 'image.astype(np.float32)':
+      return 'v'
+    if D(e) == 'CIFAR100_PIXELS_MEAN':
+      return 'mean'
+    if D(e) == 'CIFAR100_PIXELS_INVERSE_STDDEV':
+      return '((1 # 1) / std)'
+    _unsupported('preprocess_image: normalisation expression outside the subset: ' + ast.unparse(e)[:80])
+  out.append(f'Definition plain_normalise (v mean std : Q) : Q := ({q(last[-1].value)})%Q.')
+  return '\n'.join(out)
+
+
+SRC_TEXT = [open(__import__('os').path.join(__import__('os').environ.get('VERIF_REPO', '/repo'), SRC)).read()]
+
 MODULES = {
+    'Gen_ds_cifar100_norm': {'src': SRC, 'items': [_plain_norm]},
     'Gen_ds_cifar100': {
         'src': SRC,
         'items': [_tff, _plain],
